@@ -164,7 +164,7 @@ node that joins a reachable node `n` with nothing of its own (newest installed s
 log after it) holds exactly `n`'s database, and is itself in a good state. -/
 theorem join_gets_leader_db {n : Node} (g : Good n) : (joinFrom n).live = n.live ∧ Good (joinFrom n) := by
   have hd : DurInv { crash n with fp := false, dbFile := [], dbFileOk := true, peersFile := none } :=
-    ⟨g.1.snap_le, g.1.nosnap, fun hf => by cases hf⟩
+    ⟨g.1.snap_le, g.1.nosnap, fun hf => Bool.noConfusion hf, fun hf => Bool.noConfusion hf⟩
   obtain ⟨hl, _, h', q', _⟩ := open_truth hd rfl
   refine ⟨?_, h', q'⟩
   show (openNode _).live = n.live
